@@ -166,6 +166,13 @@ def prog_restore(n, m, maxcor):
         hi.f["sk"] = run.alloc(ND((m, n), sk), "caller")
         hi.f["yk"] = run.alloc(ND((m, n), yk), "caller")
         ck.f["hess_inv"] = hi
+        # ANY checkpoint: a returned result or a state kept by the callback (C07) - the report fields are arbitrary
+        # (a callback state carries status 2 and the running task, a result whatever made the run stop)
+        ck.f["status"] = Sym(run.fresh("ck_status", I))
+        ck.f["success"] = Sym(run.fresh("ck_success", B))
+        ck.f["message"] = Sym(run.fresh("ck_message", I))         # opaque: only (in)equality with literals is defined
+        ck.f["nit"], ck.f["nfev"], ck.f["njev"] = (Sym(run.fresh(k, I)) for k in ("ck_nit", "ck_nfev", "ck_njev"))
+        ck.f["fun"] = Sym(run.fresh("ck_fun", R))
         x = run.alloc(ND((n,), list(Xh[m])), "caller")
         arrs = (ck.f["x"], ck.f["jac"], hi.f["sk"], hi.f["yk"], x)
         snap = snapshot(run, arrs)
@@ -173,7 +180,7 @@ def prog_restore(n, m, maxcor):
         X, G = it.call(it.lookup("main.initialize_X_and_G"), [x, ck, maxcor], {})
         cx, cg = run.heap[X.ref], run.heap[G.ref]
         keep = min(m, maxcor + 1)
-        P = ("C06",)
+        P = ("C06", "C07")
         run.oblige(tag + "::ensures::lengths", len(cx) == keep and len(cg) == keep, P, backend="structural",
                    info=f"len X = {len(cx)}, expected {keep}")
         ok = []
@@ -182,9 +189,10 @@ def prog_restore(n, m, maxcor):
             ex, eg = run.heap[cx[j].ref].flat, run.heap[cg[j].ref].flat
             ok.append(z3.And(*[zreal(a) == b for a, b in zip(ex, Xh[src])] + [zreal(a) == b for a, b in zip(eg, Gh[src])]))
         run.oblige(tag + "::ensures::history_in_order_most_recent_kept", z3.And(*ok) if ok else z3.BoolVal(True), P)
-        run.oblige(tag + "::frame::checkpoint_untouched", untouched(run, arrs, snap), ("C06", "C14"), backend="frame")
+        run.oblige(tag + "::frame::checkpoint_untouched", untouched(run, arrs, snap), ("C06", "C07", "C14"),
+                   backend="frame")
         run.oblige(tag + "::ensures::fresh_deques", run.region[X.ref] == "local" and run.region[G.ref] == "local",
-                   ("C06", "C14"), backend="frame")
+                   ("C06", "C07", "C14"), backend="frame")
     return prog
 
 
@@ -258,8 +266,12 @@ def prog_diag(n):
     return prog
 
 
-def run_unit(tier="quick", keep_smt=1):
+def run_unit(tier="quick", keep_smt=1, only=None):
     rep = UnitReport("KERNEL")
+    if only == "restore":
+        rep.functions |= {"main.initialize_X_and_G"}
+        _restore_grid(rep, tier, keep_smt)
+        return rep
     rep.functions |= {"linesearch.max_allowed_steplength", "base.projgr", "base.clip2bounds", "main.initialize_X_and_G",
                       "utils.get_gradient_projection_unit_scaling", "utils.extract_hess_inv_diag"}
     nmax = 2 if tier == "quick" else 3
@@ -273,6 +285,11 @@ def run_unit(tier="quick", keep_smt=1):
     rep.merge(run_program("KERNEL[steplength,iter0]", prog_steplength_iter0, mode="real"))
     for n in range(1, (4 if tier == "quick" else 7)):
         rep.merge(run_program(f"KERNEL[hess_inv_diag,n={n}]", prog_diag(n), mode="real"))
+    _restore_grid(rep, tier, keep_smt)
+    return rep
+
+
+def _restore_grid(rep, tier, keep_smt):
     grid = [(1, m, mc) for m in range(1, 5) for mc in range(1, 5)] + [(2, 2, 1), (2, 3, 2)]
     if tier != "quick":
         grid += [(3, m, mc) for m in (1, 3, 5) for mc in (1, 2, 6)]
@@ -280,7 +297,6 @@ def run_unit(tier="quick", keep_smt=1):
         rep.merge(run_program(f"KERNEL[restore,n={n},pairs={m},maxcor={mc}]", prog_restore(n, m, mc), mode="real",
                               keep_smt=keep_smt if (n, m, mc) == (1, 3, 2) else 0))
     rep.merge(run_program("KERNEL[restore,mismatch]", prog_restore_mismatch, mode="real"))
-    return rep
 
 
 if __name__ == "__main__":
